@@ -21,7 +21,7 @@ func main() {
 	replay := ""
 	for i := 2; i < len(os.Args); i++ {
 		switch a := os.Args[i]; a {
-		case "quick", "thorough":
+		case "quick", "thorough", "emit":
 			tier = a
 		case "--replay":
 			if i+1 < len(os.Args) {
